@@ -1725,6 +1725,8 @@ func (e *Extractor) Document() (*model.Document, []Warning, error) {
 		}
 
 		doc.AddPage(modelPage)
+		// AddPage numbers pages by position; keep the true source page number
+		modelPage.Number = pageNum + 1
 	}
 
 	return doc, e.warnings, nil
